@@ -142,6 +142,10 @@ def check(pid, tier, verif_seed, repo, nlanes, replay=None, runs=None, wall_cap=
         if oc == "HARNESS-ERROR":
             harness.append(res)
             continue
+        if oc in ("DISCARD", "BUDGET"):
+            k = oc + ": " + str(res.get("msg"))[:70]
+            agg.setdefault("reasons", {})
+            agg["reasons"][k] = agg["reasons"].get(k, 0) + 1
         if tag == "seed":
             seed_digest[res["i"]] = res.get("digest")
         merge(agg["counters"], res.get("counters"))
@@ -242,6 +246,7 @@ def check(pid, tier, verif_seed, repo, nlanes, replay=None, runs=None, wall_cap=
             "events": nevents,
             "simulated_seconds_covered": sim_seconds,
             "outcomes": agg["outcomes"],
+            "discard_and_budget_reasons": agg.get("reasons", {}),
             "faults_fired": agg["faults"],
             "probes": agg["probes"],
             "probes_at_zero": zero_probes,
@@ -273,6 +278,8 @@ def check(pid, tier, verif_seed, repo, nlanes, replay=None, runs=None, wall_cap=
     say("runs=%d (seeded %d, corpus %d, dup %d) outcomes=%s wall=%.1fs  distinct digests=%d sigs=%d events=%d" % (
         nres, nseed, by_tag.get("corpus", 0), by_tag.get("dup", 0), agg["outcomes"], wall,
         len(digests), len(sigs), nevents))
+    if agg.get("reasons"):
+        say("discard/budget reasons: %s" % json.dumps(agg["reasons"], sort_keys=True))
     say("faults fired: %s" % json.dumps(agg["faults"], sort_keys=True))
     say("probes: %s" % json.dumps(agg["probes"], sort_keys=True))
     if state["truncated"]:
